@@ -71,37 +71,3 @@ Proof.
   destruct T as (q & _ & _ & L). intro H. injection H as H. rewrite <- H. exact L.
 Qed.
 
-(* ---- witnesses (vm_compute): key 028490e0.., message 929dc55c, signature by libsecp256k1 over
-   blake2_256(message) with recovery id 0 *)
-Definition hx (k : nat) (v : N) : list byte := be_bytes k v.
-Definition w_pk := hx 33 0x028490e0f742ac82511266048c874b9b77d1e059f54100741ca56829f1c672cdab.
-Definition w_msg := hx 4 0x929dc55c.
-Definition w_r := hx 32 0x563c4af23b30f92d27ce9121119e1b09e6d3bf547cda6c22b12f4ea92e0b2479.
-Definition w_s := hx 32 0x137f0916974af73a530a3f1e25f991e8a826c9a58114601a50abccf1add0c539.
-Definition w_high_s := hx 32 0xec80f6e968b508c5acf5c0e1da066e16128813412e3440216f26919b22657c08.
-
-(* the honest signature: both accept *)
-Example host_ecdsa_honest :
-  host_ecdsa_verify w_pk w_msg (w_r ++ w_s ++ [n2b 0]) = true
-  /\ substrate_ecdsa_verify w_pk w_msg (w_r ++ w_s ++ [n2b 0]) = true.
-Proof. vm_compute. split; reflexivity. Qed.
-(* wrong recovery id: Substrate rejects, gossamer accepts *)
-Example host_ecdsa_wrong_id :
-  host_ecdsa_verify w_pk w_msg (w_r ++ w_s ++ [n2b 1]) = true
-  /\ substrate_ecdsa_verify w_pk w_msg (w_r ++ w_s ++ [n2b 1]) = false
-  /\ host_ecdsa_guard w_pk w_msg (w_r ++ w_s ++ [n2b 1]) = true.
-Proof. vm_compute. repeat split; reflexivity. Qed.
-(* high-S twin with the matching id: Substrate accepts, gossamer rejects *)
-Example host_ecdsa_high_s :
-  host_ecdsa_verify w_pk w_msg (w_r ++ w_high_s ++ [n2b 1]) = false
-  /\ substrate_ecdsa_verify w_pk w_msg (w_r ++ w_high_s ++ [n2b 1]) = true
-  /\ host_ecdsa_guard w_pk w_msg (w_r ++ w_high_s ++ [n2b 1]) = true.
-Proof. vm_compute. repeat split; reflexivity. Qed.
-
-Lemma host_ecdsa_refuted : exists pk msg sig65,
-  host_ecdsa_verify pk msg sig65 <> substrate_ecdsa_verify pk msg sig65
-  /\ host_ecdsa_guard pk msg sig65 = true.
-Proof.
-  exists w_pk, w_msg, (w_r ++ w_high_s ++ [n2b 1]).
-  destruct host_ecdsa_high_s as (A & B & C). rewrite A, B. split; [discriminate|exact C].
-Qed.
